@@ -16,6 +16,8 @@ KINDS = {
     "scases": ("library-model(SplitHostPort/JoinHostPort/URL.Hostname,Port)", False),
     "pcases": ("pac-first-entry", True),
     "rcases": ("connect-to", True),
+    "lcases": ("localhost-classifier(pool)", True),
+    "hcases": ("pac-resolver-history-independence", True),
     "fcases": ("proxy-function", True),
     "ecases": ("e2e-route", True),
 }
@@ -39,6 +41,8 @@ def pac_value(cfg, host):
     if not p:
         return None
     host = host.strip("[]")
+    if host in (p.get("by_url") or {}):
+        return "<by-url>"
     if host in (p.get("err_hosts") or []):
         return "<script-error>"
     if host in (p.get("num_hosts") or []):
@@ -70,7 +74,7 @@ def classify(kind, case):
                 host = host.rsplit(":", 1)[0] if (":" in host and not host.endswith("]")) else host
             if cfg.get("pac"):
                 v = pac_value(cfg, host)
-                if v in ("<script-error>", "<non-string>"):
+                if v in ("<script-error>", "<non-string>", "<by-url>"):
                     return "pac" + v
                 kw, hp = first_keyword(v or "")
                 return "pac,kw=%s,%s" % (kw if kw in KNOWN_KW else "other", port_class(hp))
@@ -81,6 +85,10 @@ def classify(kind, case):
             return "no-upstream"
         if kind == "rcases":
             return "rules=%d" % len(case.get("rules", []))
+        if kind == "hcases":
+            return "pooled" if case.get("pooled") else "bare-resolver"
+        if kind == "lcases":
+            return "host=%s" % case.get("host", "")[:40]
     except Exception as ex:  # classification must never hide a failure
         return "unclassified(%s)" % type(ex).__name__
     return "any"
@@ -173,6 +181,14 @@ def run(ctx):
     elif ob_failed:
         ctx.notes.append({"unchecked_obligations": ob_failed})
 
+    chk = None
+    if ctx.tier == "thorough" and not core_broken and info["rc"] == 0 and obinfo["rc"] == 0:
+        chk = ctx.coqchk(GROUP, ["C05"])
+        if not chk["ok"] or chk.get("axioms") not in ("<none>",):
+            ob_failed.append("coqchk: %s" % chk)
+            if not ctx.violations:
+                ctx.violation("coqchk-failed", dict(unchecked="coqchk on G05.C05", detail=chk), False, str(chk)[:300])
+
     counts = meta.get("counts", {})
     dist = meta.get("distribution", {})
     total = sum(int(v) for v in counts.values())
@@ -186,7 +202,8 @@ def run(ctx):
         "obligations": len(all_thms),
         "discharged": len(all_done),
         "checker_cmd": "make -j16 (coq_makefile, full .vo) in coq/lib and coq/g05; coqc Obligations.v; coqc C05.v; "
-                       "coqc on %d cases shards (vm_compute)" % len(meta.get("shards", [])),
+                       "coqc on %d cases shards (vm_compute)%s" % (len(meta.get("shards", [])),
+                                                                  "; " + chk["cmd"] if chk else ""),
         "trusted_base": common.standard_trusted_base([
             "Print Assumptions per theorem: %s" % json.dumps(info["assumptions"]),
             "modelled, not verified: net.SplitHostPort, net.JoinHostPort, url.URL.Hostname/Port (Gallina transcriptions, "
@@ -200,6 +217,7 @@ def run(ctx):
         ]),
         "theorems": info["theorems"],
         "table_obligations": obinfo["theorems"],
+        "coqchk": chk,
         "unchecked_obligations": ob_failed,
         "evaluations": total,
         "distinct_nontrivial": nontriv,
